@@ -237,7 +237,12 @@ func (a *actor) exec(op *Op) *CallRec {
 	case "close":
 		return a.call(op, func(c *CallRec) {
 			e.closing = true
+			t0 := e.sim.Elapsed()
 			e.engine.Close()
+			if d := e.sim.Elapsed() - t0; d >= time.Second && e.quietStore() {
+				// nothing in this run keeps the engine lock for simulated time: shutdown may not wait for a timer
+				e.violate(violation("C16", "close-slow", "", fmt.Sprintf("Engine.Close needed %v of simulated time although no commit was in flight (it waited for a timer)", d)))
+			}
 			if !e.closed {
 				e.closed, e.closedAt = true, e.sim.Elapsed()
 			}
@@ -362,6 +367,13 @@ func (a *actor) exec(op *Op) *CallRec {
 }
 
 func (a *actor) stream(i int) *streamState {
+	if i >= 100 && i != 199 {
+		// a stream of any actor: several goroutines may then wait on one stream
+		if n := len(a.e.allStreams); n > 0 {
+			return a.e.allStreams[(i-100)%n]
+		}
+		return nil
+	}
 	if len(a.streams) == 0 {
 		return nil
 	}
@@ -719,6 +731,9 @@ func (a *actor) watch(op *Op) *CallRec {
 			st.s = s
 		}
 		a.streams = append(a.streams, st)
+		if st.s != nil {
+			e.allStreams = append(e.allStreams, st)
+		}
 	})
 }
 
